@@ -898,7 +898,7 @@ int cp_rsa_ver(uint8_t *sig, size_t sig_len, const uint8_t *msg, size_t msg_len,
 #if CP_RSAPD == PKCS2
 	size = bn_bits(pub->crt->n) - 1;
 	if (size % 8 == 0) {
-		size = size / 8 - 1;
+		size = size / 8;
 	} else {
 		size = bn_size_bin(pub->crt->n);
 	}
